@@ -5,6 +5,7 @@ import random
 import shutil
 import tempfile
 import threading
+import time
 import traceback
 
 from vlib import schedfuzz, srvharness as SH, srvtargets as ST, watch
@@ -25,6 +26,9 @@ PARALLEL = 14
 GROUP = 1
 BOUND = 90
 EXHAUSTIVE = {'quick': False, 'thorough': True}
+
+
+FAIL_CLASSES = [None, 'TimeoutError', None, 'queue.Empty', 'KeyError', None, 'MpTimeout', 'ConnectionResetError', 'EOFError', 'LookupError', 'asyncio.QueueEmpty', 'BrokenPipeError']
 
 
 def shapes(tier):
@@ -96,6 +100,7 @@ def gen_cases(tier, seed):
             k += 1
         cases = thr[:260] + picked[:48]
     rng.shuffle(cases)
+    cases += [{'kind': 'async-classes', 'leaf': 'T'}, {'kind': 'async-classes', 'leaf': 'P'}]
     return cases
 
 
@@ -136,7 +141,56 @@ def walk_exceptions(o, out):
             walk_exceptions(a, out)
 
 
+def _async_classes(case):
+    """AsyncServer: a worker call raising each of the classes (incl. StopIteration, which an asyncio Future refuses) fails that request
+    only, promptly, with the original class (StopIteration: a RuntimeError caused by it, as from a generator); the others are answered."""
+    import asyncio
+
+    from mpservice.mpserver import AsyncServer, ProcessServlet, ThreadServlet
+    from vlib.targets import handler_exc_class
+
+    viol = []
+    obs = {'lifetimes': 1, 'requests': 0, 'failed_requests': 0, 'ok_requests': 0, 'async_class_lifetimes': 1}
+    classes = [c for c in FAIL_CLASSES if c] + ['StopIteration']
+    servlet = (ProcessServlet if case['leaf'] == 'P' else ThreadServlet)(ST.TagWorker, tag='A')
+
+    async def main():
+        async with AsyncServer(servlet, capacity=8) as server:
+            for i, cls in enumerate(classes):
+                for t, want in ((('tok', 0, 2 * i, (('A', 'fail', cls),)), cls), (('tok', 0, 2 * i + 1, ()), None)):
+                    t0 = time.monotonic()
+                    try:
+                        y = await server.call(t, timeout=8)
+                    except Exception as e:  # noqa: BLE001
+                        y = e
+                    el = time.monotonic() - t0
+                    obs['requests'] += 1
+                    if want is None:
+                        obs['ok_requests'] += 1
+                        if y != ('A', t):
+                            viol.append({'mech': 'failalone/innocent-request-failed', 'msg': f'AsyncServer: request after a call that raised {cls} got {y!r}'})
+                        continue
+                    obs['failed_requests'] += 1
+                    ecls = handler_exc_class(want)
+                    ok = type(y) is ecls and tuple(y.args) == ('A', (0, 2 * i))
+                    if want == 'StopIteration':
+                        ok = isinstance(y, RuntimeError) and isinstance(y.__cause__, StopIteration)
+                    if not ok:
+                        mech = 'failalone/failure-not-delivered' if el > 6 else 'failalone/wrong-error'
+                        viol.append({'mech': mech, 'msg': f'AsyncServer ({case["leaf"]} leaf): call raising {want}("A", (0, {2 * i})) was reported after {el:.2f}s as {y!r}'})
+
+    try:
+        watch.run_bounded(lambda: asyncio.run(main()), BOUND, 'AsyncServer lifetime')
+    except watch.Hang as h:
+        viol.append({'mech': 'failalone/hang', 'msg': 'AsyncServer lifetime did not finish', 'stacks': h.stacks})
+        return {'violations': viol, 'obs': obs, 'exit_after': True}
+    return {'violations': viol[:5], 'obs': obs, 'nontrivial': True, 'sig': hash(('async-classes', case['leaf'])) & 0xFFFFFFFFFFFF, 'exit_after': case['leaf'] == 'P',
+            'sample': {'kind': 'async-classes', 'leaf': case['leaf'], 'classes': len(classes), 'requests': obs['requests']}}
+
+
 def run_case(case):
+    if case.get('kind') == 'async-classes':
+        return _async_classes(case)
     import mpservice.mpserver._worker as W
     from mpservice.mpserver import Server
 
@@ -152,7 +206,9 @@ def run_case(case):
     for c in range(case['callers']):
         toks = []
         for s in range(n):
-            plan = tuple((tag, act, None) for tag, act in case['site']) if s in fidx else ()
+            # the class a failing call raises varies with the request (None = the harness's own Boom)
+            cls = FAIL_CLASSES[(c * 7 + s) % len(FAIL_CLASSES)]
+            plan = tuple((tag, act, cls if act == 'fail' else None) for tag, act in case['site']) if s in fidx else ()
             toks.append(('tok', c, s, plan))
             for tag, act, _ in plan:
                 if act == 'poison':
